@@ -107,7 +107,7 @@ func (s *S) Run(c *scen.Ctx) {
 		g := g
 		wg.Add(1)
 		wi := simrt.Draw(nw, "c20.which")
-		kind := simrt.Draw(3, "c20.kind")
+		kind := simrt.Draw(4, "c20.kind")
 		simrt.GoNamed(fmt.Sprintf("logger%d", g), func() {
 			defer wg.Done()
 			for k := 0; k < per; k++ {
@@ -120,6 +120,8 @@ func (s *S) Run(c *scen.Ctx) {
 					loggers[wi].WriteLog([]byte(e.id))
 				case 1:
 					loggers[wi].Debugf("entry %s", e.id)
+				case 3:
+					loggers[wi].Trace("trace " + e.id + strings.Repeat(".", k%3))
 				default:
 					loggers[wi].Info("entry ", e.id)
 				}
